@@ -24,6 +24,8 @@ func senderOps() []sop {
 	for _, k := range []string{"pub0", "pub1", "pub2", "sub", "unsub", "ping"} {
 		ops = append(ops, sop{"api:" + k})
 	}
+	// a QoS 1 publish whose completion callback sends the next QoS 1 publish itself
+	ops = append(ops, sop{"api:pub1chain"})
 	for _, a := range []string{"PUBACK", "PUBREC", "PUBCOMP", "SUBACK", "UNSUBACK"} {
 		ops = append(ops, sop{"ack:" + a + ":oldest"}, sop{"ack:" + a + ":newest"})
 	}
@@ -44,6 +46,9 @@ func senderCheck(w *ClientWorld, final bool) string {
 	for _, r := range w.Requests {
 		if r.Completed > 1 {
 			return fmt.Sprintf("the completion callback of request %d (%s, id %d) fired %d times", r.Idx, r.Kind, r.ID, r.Completed)
+		}
+		if r.CompWrong != "" {
+			return fmt.Sprintf("the completion callback of request %d (%s, id %d) %s", r.Idx, r.Kind, r.ID, r.CompWrong)
 		}
 		if r.Kind != "pub0" && r.Completed == 1 && !r.Acked {
 			return fmt.Sprintf("the completion callback of request %d (%s, id %d) fired before its terminal acknowledgement was sent", r.Idx, r.Kind, r.ID)
@@ -113,6 +118,9 @@ func runSender(ops []sop, hist []int, trace bool) (viol, key string, steps int) 
 					r, err = w.Issue("unsub", []string{fmt.Sprintf("s/%d", len(w.Requests))}, nil, "")
 				case "ping":
 					r, err = w.Issue("ping", nil, nil, "")
+				case "pub1chain":
+					r, err = w.Issue("pub1", []string{"t"}, nil, fmt.Sprintf("payload-%d-with-a-longer-body", len(w.Requests)))
+					r.Chain = "pub1"
 				default:
 					r, err = w.Issue(kind, []string{"t"}, nil, fmt.Sprintf("payload-%d", len(w.Requests)))
 				}
@@ -193,8 +201,30 @@ func runSender(ops []sop, hist []int, trace bool) (viol, key string, steps int) 
 					w.ServerSend(&refcodec.Packet{Type: refcodec.PINGRESP})
 				}
 				w.Settle()
-				if d := diffWire(w.Srv.Take(), want); d != "" {
+				wire := w.Srv.Take()
+				// requests sent from inside a completion callback show up here
+				var rest []*refcodec.Packet
+				for _, pk := range wire {
+					taken := false
+					if pk.Type == refcodec.PUBLISH {
+						for _, x := range w.Requests {
+							if x.ID == 0 && x.Kind == "pub1" && x.Payload == string(pk.Payload) {
+								x.ID = pk.ID
+								taken = true
+								break
+							}
+						}
+					}
+					if !taken {
+						rest = append(rest, pk)
+					}
+				}
+				if d := diffWire(rest, want); d != "" {
 					vsched.Failf("after %s (request %d, id %d): %s", o, r.Idx, r.ID, d)
+					return
+				}
+				if v := inFlightIDs(w); v != "" {
+					vsched.Failf("after %s: %s", o, v)
 					return
 				}
 			}
